@@ -50,6 +50,9 @@ func propC06(w *World, r *Report) {
 	RunPairTarget(w, r, gt)
 	r.Floor("pairtarget", 5)
 	RunSkipMove(w, r)
+	RunKeepPerLookup(w, r, gt)
+	RunSkipExit(w, r, newBoundsRun(w), gt)
+	r.Floor("skipexit", 15)
 	r.Floor("emptyrecord", 2)
 	r.Floor("covgate", 15)
 	r.Floor("mapmiss", 10)
